@@ -122,9 +122,11 @@ p2 = sub, priority, obj, eft
 [role_definition]
 g = _, _
 [policy_effect]
-e = priority(p.eft) || deny
+e = some(where (p.eft == allow))
+e2 = priority(p.eft) || deny
 [matchers]
 m = g(r.sub, p.sub) && r.obj == p.obj && r.act == p.act
+m2 = r.sub == p2.sub && r.obj == p2.obj
 `, Defs: []machDef{{"g", true, 2, -1}, {"p", false, 4, -1}, {"p2", false, 4, 1}}},
 	{Name: "prio-named-b", Text: `[request_definition]
 r = sub, obj, act
@@ -172,6 +174,36 @@ func c07NamedCase(c *Ctx, id string, conf machConf, ops []mOp) {
 			}
 		}
 		c.Count(o.Kind)
+	}
+	// the firewall reference through an EnforceContext that selects p2 / e2 / m2 (first model only:
+	// it has the sections): the matching allow/deny rule of p2 with the smallest priority decides
+	if strings.Contains(conf.Text, "e2 = priority") {
+		pol, _ := m.E.GetNamedPolicy("p2")
+		d := conf.Def("p2")
+		for i := 0; i < 7; i++ {
+			sub, obj := fmt.Sprintf("s%d", i), fmt.Sprintf("o%d", i%2)
+			if i == 6 {
+				sub, obj = "s9", "o1"
+			}
+			want, best, have := false, 0, false
+			for _, r := range pol { // sub, priority, obj, eft
+				if r[0] != sub || r[2] != obj || (r[3] != "allow" && r[3] != "deny") {
+					continue
+				}
+				v, err := strconv.Atoi(r[d.Prio])
+				if err != nil {
+					continue
+				}
+				if !have || v < best {
+					have, best, want = true, v, r[3] == "allow"
+				}
+			}
+			got, err := m.E.Enforce(casbin.EnforceContext{RType: "r", PType: "p2", EType: "e2", MType: "m2"}, sub, obj, "allow")
+			if err != nil || got != want {
+				c.Direct(id, fmt.Sprintf("through EnforceContext{r,p2,e2,m2}: decision for (%s,%s) is %v (err %v), the matching rule of p2 with the smallest priority says %v", sub, obj, got, err != nil, want), fmt.Sprintf("%s p2=%s", opsSx(ops), rulesKey(pol)))
+				break
+			}
+		}
 	}
 }
 
@@ -296,6 +328,11 @@ func init() {
 					ops = append(ops, mOp{Kind: "add", Pt: "p2", R1: [][]string{c07NamedRule(conf.Def("p2"), prios[i], i)}})
 					ops = append(ops, mOp{Kind: "add", Pt: "p", R1: [][]string{c07NamedRule(conf.Def("p"), prios[p[(j+1)%3]], i)}})
 				}
+				if conf.Def("p2").Prio == 1 {
+					// one subject with an allow rule and a deny rule of different priorities (p2 = sub, priority, obj, eft)
+					ops = append(ops, mOp{Kind: "add", Pt: "p2", R1: [][]string{{"s9", prios[p[0]], "o1", "allow"}}},
+						mOp{Kind: "add", Pt: "p2", R1: [][]string{{"s9", prios[p[1]], "o1", "deny"}}})
+				}
 				ops = append(ops, mOp{Kind: "remove", Pt: "p2", R1: ops[0].R1}, mOp{Kind: "add", Pt: "p2", R1: ops[0].R1}, mOp{Kind: "save"}, mOp{Kind: "load"})
 				id := fmt.Sprintf("c07.named.%s.%d", conf.Name, np)
 				c07NamedCase(c, id, conf, ops)
@@ -315,6 +352,36 @@ e = priority(p.eft) || deny
 [matchers]
 m = g(r.sub, p.sub) && r.obj == p.obj && r.act == p.act
 `, Defs: []machDef{{"g", true, 2, -1}, {"p", false, 5, 0}}}
+		// ... and a definition that HAS a column named priority while SetFieldIndex points at another
+		// one: the explicitly set index wins (GetFieldIndex looks at FieldIndexMap first)
+		both := machConf{Name: "prio-both", Text: strings.Replace(custom.Text, "p = rank, sub, obj, act, eft", "p = priority, rank, obj, act, eft", 1),
+			Defs: []machDef{{"g", true, 2, -1}, {"p", false, 5, 1}}}
+		nb := 0
+		c07Perms(len(prios), 3, func(p []int) {
+			nb++
+			if !c.Thorough() && nb%6 != 0 {
+				return
+			}
+			var ops []mOp
+			for j, i := range p {
+				// column 0 ("priority") descends while column 1 (the index set explicitly) varies
+				ops = append(ops, mOp{Kind: "add", Pt: "p", R1: [][]string{{strconv.Itoa(9 - j), prios[i], "data1", "read", []string{"allow", "deny"}[i%2]}}})
+			}
+			ops = append(ops, mOp{Kind: "save"}, mOp{Kind: "load"})
+			id := fmt.Sprintf("c07.both.%d", nb)
+			c.Case(id, fmt.Sprintf("(cfg %s) (flags 0 0 none) (content) (obs res (pol p)) (ops %s)",
+				strings.TrimSuffix(strings.TrimPrefix(both.Sx(), "("), ")"),
+				strings.TrimSuffix(strings.TrimPrefix(opsSx(ops), "("), ")")))
+			m := newMach(both, false, false, "none", nil)
+			m.E.SetFieldIndex("p", "priority", 1)
+			for k, o := range ops {
+				c.Obs(id, fmt.Sprintf("%d.res", k), m.apply(o))
+				pol, _ := m.E.GetNamedPolicy("p")
+				c.Obs(id, fmt.Sprintf("%d.pol.p", k), rulesKey(pol))
+			}
+			c.NonTrivial(id)
+			c.Count("priority-token-and-set-index")
+		})
 		ncu := 0
 		c07Perms(len(prios), 4, func(p []int) {
 			ncu++
